@@ -5,7 +5,12 @@ observation line per op; same protocol as harness/c13.cpp.
 -/
 import SharkVerif.Model.Pareto
 import SharkVerif.Model.Hypervolume
-open SharkVerif.Pareto SharkVerif.HV
+import SharkVerif.Model.HV3D
+import SharkVerif.Model.DCSort
+import SharkVerif.Model.Subset2D
+import SharkVerif.Model.HOY
+import SharkVerif.Model.Contrib3D
+open SharkVerif.Pareto SharkVerif.HV SharkVerif.DC
 
 def showL {α} [ToString α] (l : List α) : String :=
   "[" ++ ",".intercalate (l.map toString) ++ "]"
@@ -14,12 +19,6 @@ def showL {α} [ToString α] (l : List α) : String :=
 def chunk (m : Nat) : Nat → List Int → List Pt
   | 0, _ => []
   | n + 1, l => l.take m :: chunk m n (l.drop m)
-
-def insertAsc (x : Int) : List Int → List Int
-  | [] => [x]
-  | y :: ys => if x ≤ y then x :: y :: ys else y :: insertAsc x ys
-
-def sortAsc (l : List Int) : List Int := l.foldr insertAsc []
 
 def step (line : String) : String :=
   let toks := (line.trimAscii.toString.splitOn " ").filter (· ≠ "")
@@ -35,15 +34,16 @@ def step (line : String) : String :=
           let m := m.toNat; let n := n.toNat; let k := k.toNat
           let r := nums.take m
           let S := chunk m n (nums.drop m)
-          let all : List Int :=
-            if alg == "2d" then
-              -- model of HypervolumeContribution2D, re-ordered by original index
-              let cs := contribs2d S r
-              (List.range n).map fun i => ((cs.find? fun c => c.2 == i).map (·.1)).getD (-1)
-            else (List.range n).map fun i => contribSpec S r i
-          let sorted := sortAsc all
-          let sel := if kind == "small" then sorted.take k else (sorted.reverse).take k
-          s!"all={showL all} sel={showL sel}"
+          -- the (contribution, index) pairs computed by the modelled routine
+          let cs : List KV :=
+            if alg == "2d" then contribs2d S r
+            else if alg == "3d" then contribs3d S r
+            else if alg == "md" then contribsMD SharkVerif.DC.nds hvDisp S r
+            else contribsDisp S r
+          let all : List Int := (List.range n).map fun i => ((cs.find? fun c => c.2 == i).map (·.1)).getD (-1)
+          let sel := (if kind == "small" then smallestOf cs k else largestOf cs k).map (·.1)
+          let spec : List Int := (List.range n).map fun i => contribSpec S r i
+          s!"all={showL all} sel={showL sel} spec={showL spec}"
         | _ => "bad-op"
       | _ => "bad-op"
     else
@@ -57,11 +57,13 @@ def step (line : String) : String :=
         s!"rel={(dominance p q).code} rev={(dominance q p).code}"
       | "sort", m :: n :: nums =>
         let S := chunk m.toNat n.toNat nums
-        let fast := fastSort S
+        -- the model of fastNonDominatedSort is quadratic on lists: beyond 1500 points (one thorough-tier case with
+        -- n > 5000) the line is produced from the divide-and-conquer model (both are proved equal to rankSpec)
+        let fast := if S.length ≤ 1500 then fastSort S else dcSort S
         -- rankSpec is a plain well-founded recursion (exponential without memoisation): run it on small
         -- inputs only; `fastSort_eq_rankSpec` makes the two interchangeable
         let spec := if S.length ≤ 9 then S.map (rankSpec S) else fast
-        s!"fast={showL fast} dc={showL spec} nds={showL spec}"
+        s!"fast={showL fast} dc={showL (dcSort S)} nds={showL (nds S)} spec={showL spec}"
       | "hv", m :: n :: nums =>
         let m := m.toNat
         let r := nums.take m
@@ -69,14 +71,18 @@ def step (line : String) : String :=
         let spec : Int := hvSpec S r
         let parts : List String :=
           (if m == 2 then [s!"hv2d={hv2d S r}"] else []) ++
-          (if m == 3 then [s!"hv3d={spec}"] else []) ++
-          (if m ≥ 3 then [s!"hoy={spec}"] else []) ++
+          (if m == 3 then [s!"hv3d={hv3d S r}"] else []) ++
+          (if m ≥ 3 then [s!"hoy={SharkVerif.HOY.hvHoy S r}"] else []) ++
           (if S.length ≤ 12 then [s!"wfg={hvWfg S r}"] else []) ++ [s!"disp={spec}"]
         " ".intercalate parts
       | "ssp", k :: n :: nums =>
         let r := nums.take 2
         let S := chunk 2 n.toNat (nums.drop 2)
-        s!"cnt={k} hv={bestSubsetHv S k.toNat r}"
+        let flags := SharkVerif.SSP.select S k.toNat r
+        let T := ((S.zip flags).filter (·.2)).map (·.1)
+        let selIdx := (List.range S.length).filter fun i => flags.getD i false
+        let best := if S.length ≤ 12 then toString (bestSubsetHv S k.toNat r) else "-"
+        s!"cnt={T.length} hv={hvSpec T r} best={best} sel={showL selIdx}"
       | _, _ => "bad-op"
 
 partial def loop (h : IO.FS.Stream) (out : IO.FS.Stream) : IO Unit := do
